@@ -15,7 +15,7 @@ pub struct BaseMod {
 }
 
 pub fn gen_base(rng: &mut Rng, must: Vec<usize>, small: bool) -> BaseMod {
-    let mut gen = Gen::new(1000);
+    let mut gen = Gen::with_id_policy(rng);
     gen.lit = if rng.chance(1, 2) { LitStyle::Random } else { LitStyle::Marker };
     let o = ModOpts { max_functions: if small { 1 } else { 2 }, max_blocks: 2, max_block_insts: if small { 2 } else { 4 }, max_per_section: if small { 1 } else { 2 }, layout_order: rng.chance(2, 3), must, memory_model: rng.chance(3, 4) };
     let sk = genmod::skeleton(rng, &o);
@@ -202,6 +202,21 @@ pub fn run(cfg: &Cfg, rep: &mut Report) {
         let rp = || crate::util::replay_ref(cfg, "directed", idx);
         if let Some(k) = compare(bytes, label, r, &rp, "C03") {
             r.nontrivial(format!("directed:{}:{}", label, k));
+        }
+    });
+    // ---- boundary-value modules, plain and mutated
+    run_stage(cfg, rep, "scale", cfg.n(crate::scale::N_VARIANTS * 16, crate::scale::N_VARIANTS * 600), |idx, rng, r| {
+        let (label, insts) = crate::scale::scale_module(rng, idx % crate::scale::N_VARIANTS);
+        let (words, _m, starts) = genmod::encode_module(0x0001_0600, 0, 1 << 22, &insts, None);
+        let rp = || crate::util::replay_ref(cfg, "scale", idx).set("label", label.clone());
+        let (bytes, l2) = if idx % 3 == 2 && insts.len() < 2000 {
+            let m = rng.below(mutate::N_MUTATORS);
+            mutate::mutate(rng, &Base { words: &words, starts: &starts, insts: &insts }, m)
+        } else {
+            (words_to_bytes(&words), "none".to_string())
+        };
+        if let Some(k) = compare(&bytes, &format!("{} / {}", label, l2), r, &rp, "C03") {
+            r.nontrivial(format!("scale:{}:{}", label, k));
         }
     });
     // ---- mutants
